@@ -133,7 +133,7 @@ def run(ctx):
         if d["signature"] in seen:
             continue
         seen.add(d["signature"])
-        ctx.report(d["signature"], d["what"], dict(input=d["input"], how=how(d["input"]) if "formula" in d["input"] else ""))
+        ctx.report(d["signature"], d["what"], dict(input=d["input"], how=how(d["input"]) if "fluence" in d["input"] else ""))
     ctx.cov["signatures_reported"] = sorted(set(v[0] for v in ctx.violations) | set(s for s, _ in ctx.known_printed))
     if not proved and not ctx.violations:
         kind, msg = ctx.broken
